@@ -1,11 +1,13 @@
 CONSTANTS
-  MaxLen = 2
+  MaxLen = 4
   Emit = FALSE
   Dev_TickerInterval = FALSE
   Dev_NoSessionCheck = FALSE
   Dev_NilSession = FALSE
   Dev_UnknownItem = FALSE
+  Dev_BlockedFanout = FALSE
   SvcFilter = {}
 SPECIFICATION Spec
 INVARIANTS InvAliveAndResponsive InvItemInSub
+VIEW view
 CHECK_DEADLOCK FALSE
